@@ -99,6 +99,30 @@ func (f *Frame) call(in ssa.Instruction, cc *ssa.CallCommon, v ssa.Value) {
 		for _, a := range cc.Args {
 			args = append(args, f.val(a))
 		}
+		if named, ok := cc.Value.Type().(*types.Named); ok && f.depth == 0 {
+			for _, dc := range e.unit.DynCalls {
+				if dc.Raw != named.Obj().Name() {
+					continue
+				}
+				vars := map[string]CVal{}
+				for k, pv := range f.params {
+					vars[k] = pv
+				}
+				for i, a := range cc.Args {
+					vars[fmt.Sprintf("arg%d", i)] = CVal{S: args[i], T: a.Type()}
+				}
+				errs := []string{}
+				env := &CEnv{e: e, vars: vars, st: f.st, old: f.entrySt, pkg: f.fn.Pkg.Pkg, frame: f, at: in.Block(), lets: e.unit.Lets, errs: &errs}
+				goal := env.evalBool(dc.Expr)
+				f.reportEnvErrs(env, dc)
+				e.callOrd["dyn."+dc.Raw]++
+				lab := dc.Label
+				if lab == "" {
+					lab = "d"
+				}
+				e.oblige("pre", fmt.Sprintf("%s#pre[dyn.%s#%d.%s]", e.unit.Key(), dc.Raw, e.callOrd["dyn."+dc.Raw], lab), lab, f.reach, goal, site)
+			}
+		}
 		e.fullHavoc(f.st, "call of function value in "+f.fn.Name())
 		f.setResults(v, f.symbolicResults(cc.Signature(), f.st, f.reach, "dyn"))
 		return
